@@ -28,7 +28,7 @@
 From Coq Require Import List NArith ZArith String Sorted Bool Lia.
 From Mkdb Require Import Spec.HistObs Proofs.TreeProofs Proofs.StoreInv Proofs.TupleProofs
   Proofs.RefineForest Proofs.RefineCodec Proofs.RefineRep Proofs.RefineCat Proofs.RefineDML
-  Proofs.RefineDDL Proofs.Atomic Proofs.RefineMain Properties.C01.
+  Proofs.RefineDDL Proofs.Atomic Proofs.RefineMain Proofs.RefineFail Properties.C01.
 Import ListNotations.
 Local Open Scope N_scope.
 Local Open Scope string_scope.
@@ -108,34 +108,58 @@ Proof.
 Qed.
 Print Assumptions C01_refines_partial_all_succeed.
 
+(* ---------- ALL histories: no hypothesis on how statements fail ----------
+   Whatever statements fail and however (the recorded findings included), the table contents
+   equal those of SOME database the specification derives from the history when every failed
+   statement is allowed to leave a row-operation prefix behind (lax_dbs: acknowledged statement =
+   spec_exec; failed statement = unchanged or one of TableSpec.stmt_prefixes). This is the oracle
+   `spec_accepts_prefix_on_error` of Spec/HistObs.v as a theorem about the model. *)
+Theorem C01_refines_partial_lax : forall evs y os,
+  stmts_only evs = true ->
+  run_events init_sys evs = (SOk y, os) ->
+  forallb ev_ok evs = true ->                      (* (ii), (iii) *)
+  N.leb (nextFree (mem y)) OFFMAX = true ->        (* (iv) *)
+  exists d, In d (lax_dbs [[]] evs os) /\ Rep (mem y) d /\
+            forall n, is_sys n = false -> table_agrees (mem y) d n.
+Proof.
+  intros evs y os Hso Hrun Hok Hmax. apply N.leb_le in Hmax.
+  destruct (run_events_lax evs init_sys [] [[]] y os Rep_init (or_introl eq_refl) Hso Hok Hrun Hmax) as (d & Hd & HR).
+  exists d. split; [exact Hd|]. split; [exact HR|]. intros n Hn. apply Rep_table_agrees; assumption.
+Qed.
+Print Assumptions C01_refines_partial_lax.
+
 (* ---------- the full statement is false for the code as it is (finding F11a) ---------- *)
 Definition evs_F11a : list event :=
   [EvStmt (SCreateTable "t" [mkColDef "a" STNumeric]);
    EvStmt (SInsert "t" [] [[VInt 1]; [VInt 2147483648]])].
 
+(* everything the refutation needs, decided by one vm_compute: the history runs without panic,
+   the model's table t holds a row, the specification's table t is empty *)
+Definition F11a_check : bool :=
+  match run_events init_sys evs_F11a with
+  | (SOk y, os) =>
+      forallb (fun o => match o with Some OPanic => false | _ => true end) os &&
+      match st_fetch (mem y) "t", spec_table (spec_run [] (acked_stmts evs_F11a os)) "t" with
+      | Ok (_ :: _, _), Some (_, []) => true
+      | _, _ => false
+      end
+  | _ => false
+  end.
+
+Lemma F11a_check_true : F11a_check = true.
+Proof. vm_compute. reflexivity. Qed.
+
 Theorem C01_full_refuted : ~ C01_full_statement.
 Proof.
-  intros H.
-  assert (E : exists y os, run_events init_sys evs_F11a = (SOk y, os) /\
-                           os = [Some (OOk 0); Some (OErr EIntRange)] /\
-                           obs_table (mem y) "t" = TRows ["a"] [(11, [VInt 1])]).
-  { destruct (run_events init_sys evs_F11a) as [[y| |] os] eqn:E; try (vm_compute in E; discriminate E).
-    exists y, os. split; [reflexivity|].
-    assert (X : (os, obs_table (mem y) "t") =
-                (snd (run_events init_sys evs_F11a),
-                 match fst (run_events init_sys evs_F11a) with SOk y0 => obs_table (mem y0) "t" | _ => TPanic end))
-      by (rewrite E; reflexivity).
-    vm_compute in X. inversion X. split; reflexivity. }
-  destruct E as (y & os & Hrun & Hos & Hobs).
-  specialize (H evs_F11a y os "t" eq_refl Hrun).
-  assert (Hnp : forall o, In (Some o) os -> o <> OPanic).
-  { subst os. intros o [X|[X|[]]]; inversion X; discriminate. }
-  specialize (H Hnp). subst os.
-  unfold table_agrees in H. unfold obs_table in Hobs.
-  change (spec_table (spec_run [] (acked_stmts evs_F11a [Some (OOk 0); Some (OErr EIntRange)])) "t")
-    with (Some (["a"], @nil row)) in H.
-  destruct (st_fetch (mem y) "t") as [[idrows fs]|e|]; try discriminate.
-  inversion Hobs; subst. destruct H as (_ & X & _). discriminate X.
+  intros H. pose proof F11a_check_true as Hc. unfold F11a_check in Hc.
+  destruct (run_events init_sys evs_F11a) as [[y| |] os] eqn:E; try discriminate Hc.
+  apply andb_true_iff in Hc as [Hnp Hc].
+  assert (Hnp' : forall o, In (Some o) os -> o <> OPanic).
+  { intros o Ho. rewrite forallb_forall in Hnp. specialize (Hnp _ Ho). intros ->. discriminate Hnp. }
+  pose proof (H evs_F11a y os "t" eq_refl E Hnp') as Ht. unfold table_agrees in Ht.
+  destruct (st_fetch (mem y) "t") as [[[|r1 idrows] fs]|e|]; try discriminate Hc.
+  destruct (spec_table (spec_run [] (acked_stmts evs_F11a os)) "t") as [[cols [|r rows]]|]; try discriminate Hc.
+  destruct Ht as (_ & X & _). discriminate X.
 Qed.
 Print Assumptions C01_full_refuted.
 
@@ -163,7 +187,7 @@ Example C01_demo_hyps :
       N.leb (nextFree (mem y)) OFFMAX = true /\
       map (fun o => match o with Some (OOk _) => true | _ => false end) os =
         [true; true; false; true; true; false; false; false; true; true; false; true; false] /\
-      obs_table (mem y) "t" = TRows ["a"; "b"; "c"] [(13, [VInt 2; VStr "TWO"; VNull]); (14, [VInt 3; VStr "three"; VNull])]
+      obs_table (mem y) "t" = TRows ["a"; "b"; "c"] [(16, [VInt 2; VStr "TWO"; VNull]); (17, [VInt 3; VStr "three"; VNull])]
   | _ => False
   end.
 Proof. vm_compute. repeat split; reflexivity. Qed.
